@@ -261,24 +261,7 @@ func (m *Module) EmitBinOp(x, y Value, op wat.OpCode) (insts []wat.Inst, ret_typ
 
 	case wat.OpCodeShl:
 		ret_type = x.Type()
-
-		if x.Type().Size() <= 4 && y.Type().Size() == 8 {
-			insts = append(insts, x.EmitPushNoRetain()...)
-			insts = append(insts, y.EmitPushNoRetain()...)
-			insts = append(insts, wat.NewInstConvert_i32_wrap_i64())
-			insts = append(insts, wat.NewInstShl(toWatType(ret_type)))
-		} else if x.Type().Size() == 8 && y.Type().Size() <= 4 {
-			insts = append(insts, x.EmitPushNoRetain()...)
-			insts = append(insts, y.EmitPushNoRetain()...)
-			insts = append(insts, wat.NewInstConvert_i64_extend_i32_u())
-			insts = append(insts, wat.NewInstShl(toWatType(ret_type)))
-		} else if (x.Type().Size() <= 4 && y.Type().Size() <= 4) || (x.Type().Size() == 8 && y.Type().Size() == 8) {
-			insts = append(insts, x.EmitPushNoRetain()...)
-			insts = append(insts, y.EmitPushNoRetain()...)
-			insts = append(insts, wat.NewInstShl(toWatType(ret_type)))
-		} else {
-			logger.Fatal("Unreachable")
-		}
+		insts = append(insts, m.emitShift(x, y, true)...)
 
 		if ret_type.Equal(m.U8) {
 			insts = append(insts, wat.NewInstConst(wat.I32{}, "255"))
@@ -290,24 +273,7 @@ func (m *Module) EmitBinOp(x, y Value, op wat.OpCode) (insts []wat.Inst, ret_typ
 
 	case wat.OpCodeShr:
 		ret_type = x.Type()
-
-		if x.Type().Size() <= 4 && y.Type().Size() == 8 {
-			insts = append(insts, x.EmitPushNoRetain()...)
-			insts = append(insts, y.EmitPushNoRetain()...)
-			insts = append(insts, wat.NewInstConvert_i32_wrap_i64())
-			insts = append(insts, wat.NewInstShr(toWatType(ret_type)))
-		} else if x.Type().Size() == 8 && y.Type().Size() <= 4 {
-			insts = append(insts, x.EmitPushNoRetain()...)
-			insts = append(insts, y.EmitPushNoRetain()...)
-			insts = append(insts, wat.NewInstConvert_i64_extend_i32_u())
-			insts = append(insts, wat.NewInstShr(toWatType(ret_type)))
-		} else if (x.Type().Size() <= 4 && y.Type().Size() <= 4) || (x.Type().Size() == 8 && y.Type().Size() == 8) {
-			insts = append(insts, x.EmitPushNoRetain()...)
-			insts = append(insts, y.EmitPushNoRetain()...)
-			insts = append(insts, wat.NewInstShr(toWatType(ret_type)))
-		} else {
-			logger.Fatal("Unreachable")
-		}
+		insts = append(insts, m.emitShift(x, y, false)...)
 
 	case wat.OpCodeAndNot:
 		ret_type = x.Type()
@@ -1173,4 +1139,58 @@ func (m *Module) EmitStringValue(v Value) (insts []wat.Inst) {
 func (m *Module) emitPrintValue(v Value) (insts []wat.Inst) {
 
 	panic("Todo")
+}
+
+// emitShift emits x << y or x >> y with the language's meaning of large counts: a count that is
+// not smaller than the width of x gives 0 (the sign fill for >> of a signed x). The wasm shift
+// instructions take the count modulo the width, so the in-range case is guarded.
+func (m *Module) emitShift(x, y Value, left bool) (insts []wat.Inst) {
+	t := toWatType(x.Type())
+	width := 32
+	if x.Type().Size() == 8 {
+		width = 64
+	}
+
+	var shift []wat.Inst
+	shift = append(shift, x.EmitPushNoRetain()...)
+	shift = append(shift, y.EmitPushNoRetain()...)
+	if x.Type().Size() <= 4 && y.Type().Size() == 8 {
+		shift = append(shift, wat.NewInstConvert_i32_wrap_i64())
+	} else if x.Type().Size() == 8 && y.Type().Size() <= 4 {
+		shift = append(shift, wat.NewInstConvert_i64_extend_i32_u())
+	} else if !((x.Type().Size() <= 4 && y.Type().Size() <= 4) || (x.Type().Size() == 8 && y.Type().Size() == 8)) {
+		logger.Fatal("Unreachable")
+	}
+	if left {
+		shift = append(shift, wat.NewInstShl(t))
+	} else {
+		shift = append(shift, wat.NewInstShr(t))
+	}
+
+	// the value for counts >= width
+	var fill []wat.Inst
+	signed := false
+	switch t.(type) {
+	case wat.I32, wat.I64:
+		signed = true
+	}
+	if !left && signed {
+		fill = append(fill, x.EmitPushNoRetain()...)
+		fill = append(fill, wat.NewInstConst(t, strconv.Itoa(width-1)))
+		fill = append(fill, wat.NewInstShr(t))
+	} else {
+		fill = append(fill, wat.NewInstConst(t, "0"))
+	}
+
+	// count < width, compared as an unsigned number in the count's own size
+	insts = append(insts, y.EmitPushNoRetain()...)
+	if y.Type().Size() == 8 {
+		insts = append(insts, wat.NewInstConst(wat.U64{}, strconv.Itoa(width)))
+		insts = append(insts, wat.NewInstLt(wat.U64{}))
+	} else {
+		insts = append(insts, wat.NewInstConst(wat.U32{}, strconv.Itoa(width)))
+		insts = append(insts, wat.NewInstLt(wat.U32{}))
+	}
+	insts = append(insts, wat.NewInstIf(shift, fill, []wat.ValueType{t}))
+	return
 }
